@@ -43,6 +43,9 @@ func TestVerif_C13_ZA(t *testing.T) {
 			n = gen.Uniform(t, "idlenA", 0, 8300)
 		}
 		id := gen.RandBytes(r, n)
+		id, idShape := gen.Absent(t, "id", id)
+		n = len(id)
+		rec.Tally("id-shape:" + idShape)
 		d, _, _ := sm2gen.PrivKey(t, "d")
 		px, py, _ := sm2gen.Pub(d)
 		in := snap(id, px, py)
@@ -112,6 +115,10 @@ func TestVerif_C13_Wrappers(t *testing.T) {
 		}
 		id := gen.RandBytes(r, n)
 		msg := gen.RandBytes(r, gen.Int(t, "msglen", 0, 200))
+		id, idShape := gen.Absent(t, "id", id)
+		msg, _ = gen.Absent(t, "msg", msg)
+		n = len(id)
+		rec.Tally("id-shape:" + idShape)
 		d, denc, _ := sm2gen.PrivKey(t, "d")
 		px, py, _ := sm2gen.Pub(d)
 		stream := gen.RandBytes(r, 128)
